@@ -101,7 +101,10 @@ NodeInfo(n, a) ==
       [] n.k = "elem"    -> R!ElemInfo(n.n, n.ty, a[n.i])
       [] n.k = "slice"   -> R!SliceInfo(a[n.a], a[n.lo], a[n.hi])
       [] n.k = "loopvar" -> (IF a[n.f].w > 0 THEN R!LoopVarInfo(a[n.f]) ELSE R!Unsup)
-      [] n.k = "tmp"     -> R!TmpInfo(a[n.v])
+      \* a temporary: width / type of the value assigned last (all assignments must agree on the data type);
+      \* explicitly sized as soon as ANY assignment seen so far assigned an explicitly sized value - at run
+      \* time the temporary may hold that Bits value whichever assignment the checker visited last
+      [] n.k = "tmp"     -> [R!TmpInfo(a[n.v]) EXCEPT !.ex = \E j \in DOMAIN n.vs : a[n.vs[j]].ex]
       [] n.k = "for"     -> R!ForInfo(a[n.s], a[n.e], a[n.st])
       [] n.k = "assign"  -> R!AssignInfo(a[n.t], a[n.v])
       [] OTHER           -> R!NoInfo           \* tmpdef, if
